@@ -7,6 +7,7 @@ Property theorems only; helper lemmas live in FendModel/Proofs/.
 import FendModel.Proofs.BigUintSub
 import FendModel.Proofs.BigUintPow
 import FendModel.Proofs.BigRatMulDiv
+import FendModel.Proofs.BigRatField
 import FendModel.Model.Pinned
 
 namespace Fend.C01
@@ -55,6 +56,40 @@ theorem rat_div_exact (a b : BigRat) (hw : b.num.WF) :
 /-- negation negates -/
 theorem rat_neg_exact (a : BigRat) : BigRat.valQ (BigRat.negate a) = - BigRat.valQ a := BigRat.negate_valQ a
 
+/-- binary long division: Euclidean quotient and remainder for every dividend and every non-zero divisor, never a panic -/
+theorem divmod_exact (a b : BigUint) (ha : a.WF) (hb : b.WF) (hb0 : val b ≠ 0) :
+    ∃ q r, divmod a b = .ok (q, r) ∧ val q = val a / val b ∧ val r = val a % val b ∧ q.WF ∧ r.WF :=
+  divmod_val a b ha hb hb0
+
+theorem divmod_by_zero (a b : BigUint) (hb : b.WF) (hb0 : val b = 0) : divmod a b = .error .divideByZero :=
+  divmod_zero a b hb hb0
+
+/-- the Euclidean loop computes the greatest common divisor (its fuel always suffices) -/
+theorem gcd_exact (a b : BigUint) (ha : a.WF) (hb : b.WF) :
+    ∃ g, gcd a b = .ok g ∧ val g = Nat.gcd (val a) (val b) ∧ g.WF := gcd_val a b ha hb
+
+/-- limbs stay below 2^64 through `add` and `mul` (so results can be fed to `sub`, `cmp`, `divmod`, `gcd`) -/
+theorem add_mul_wf (a b : BigUint) (ha : a.WF) (hb : b.WF) : (a.add b).WF ∧ (a.mul b).WF :=
+  ⟨add_WF a b ha hb, mul_WF a b ha hb⟩
+
+/-- `BigRat::add` (equal and different denominators, every sign combination, unreduced operands) is addition -/
+theorem rat_add_exact (a b : BigRat) (wa : BigRat.WFQ a) (wb : BigRat.WFQ b) (da : val a.den ≠ 0) (db : val b.den ≠ 0) :
+    ∃ r, BigRat.add a b = .ok r ∧ BigRat.valQ r = BigRat.valQ a + BigRat.valQ b ∧ BigRat.WFQ r ∧ val r.den ≠ 0 :=
+  BigRat.add_valQ a b wa wb da db
+
+theorem rat_sub_exact (a b : BigRat) (wa : BigRat.WFQ a) (wb : BigRat.WFQ b) (da : val a.den ≠ 0) (db : val b.den ≠ 0) :
+    ∃ r, BigRat.sub a b = .ok r ∧ BigRat.valQ r = BigRat.valQ a - BigRat.valQ b ∧ BigRat.WFQ r ∧ val r.den ≠ 0 :=
+  BigRat.sub_valQ a b wa wb da db
+
+/-- THE rational-field statement of C01: for every expression tree over +, -, *, /, unary minus whose literals are
+well-formed fractions, evaluation with the modelled operations yields a value denoting the tree's true rational
+value (whatever unreduced or oddly represented intermediate values arise), and the only error is `divideByZero`,
+raised exactly when some divisor's value is zero -/
+theorem field_tree_exact (e : BigRat.QExpr) (hl : BigRat.LeavesOK e) :
+    (∀ q, BigRat.denote e = some q → ∃ r, BigRat.evalQ e = .ok r ∧ BigRat.valQ r = q ∧ BigRat.WFQ r ∧ val r.den ≠ 0) ∧
+    (BigRat.denote e = none → BigRat.evalQ e = .error .divideByZero) :=
+  BigRat.evalQ_spec e hl
+
 /-- Defect D20 (repaired by a `fix:` commit): on the pinned tree `add` was NOT addition.
 Witness: `1 + (2^128 - 1)` gave `2^64`. -/
 theorem pinned_add_wrong :
@@ -67,5 +102,10 @@ theorem pinned_add_wrong :
 example : (BigUint.large [5, 0]).WF ∧ (BigUint.small 3).WF ∧
     val (.small 3) ≤ val (.large [5, 0]) := by
   refine ⟨?_, ?_, ?_⟩ <;> simp [WF, val, valL, B]
+
+-- non-vacuity of `field_tree_exact`: (1/2 + 2/6) / (3/4 - 6/8) has well-formed leaves and a zero divisor; (1/2 + 2/6) * (-(3/4)) a value
+example : BigRat.LeavesOK (.div (.add (.lit ⟨false, .small 1, .small 2⟩) (.lit ⟨false, .small 2, .small 6⟩))
+    (.sub (.lit ⟨false, .small 3, .small 4⟩) (.lit ⟨false, .small 6, .small 8⟩))) := by
+  simp [BigRat.LeavesOK, BigRat.WFQ, WF, val, B]
 
 end Fend.C01
